@@ -221,8 +221,9 @@ AcceptP(s, t, e) == (e.a = "Accept") => /\ t.acc = (e.kind = "valid")
 NotifyP(s, t, e) == (e.a = "Notify" /\ e.kind \in {"tx", "upd"}) =>
    IF s.acc /\ e.k = s.nextId THEN t.deliv = Append(s.deliv, [kind |-> e.kind, id |-> e.k]) /\ t.nextId = e.k + 1
                               ELSE t.deliv = s.deliv /\ t.nextId = s.nextId
+\* (a call may also reach its own request time-out while a long scenario is running: that is judged by TimeoutOnTime, not here)
 RespondP(s, t, e) == (e.a = "Respond") =>
-   \A k \in Slots : t.calls[k] # s.calls[k] =>
+   \A k \in Slots : (t.calls[k] # s.calls[k] /\ t.calls[k].res # "timeout") =>
         /\ s.calls[k].st = "pending" /\ t.calls[k].st = "done" /\ s.calls[k].kind = s.calls[e.k].kind
         /\ (e.kind = "ok" => (t.calls[k].res = "ok" /\ t.calls[k].rkey = s.calls[k].key /\ (s.calls[k].key = s.calls[e.k].key \/ s.calls[k].kind = "FeeQuotes")))
         /\ (e.kind = "reject" => t.calls[k].res = "reject")
@@ -230,7 +231,7 @@ RespondP(s, t, e) == (e.a = "Respond") =>
 AnsweredP(s, t, e) == (e.a = "Respond" /\ e.kind = "ok" /\ s.calls[e.k].st = "pending") => t.calls[e.k].st = "done"   \* the answer reaches its call
 ReadyP(s, t, e) == (e.a = "Ready") => (t.nextId = (IF e.k = 0 THEN 1 ELSE e.k) /\ t.hs /\ t.deliv = s.deliv)                    \* C17
 RejectSurfacesP(s, t, e) == (e.a = "Respond" /\ e.kind = "reject" /\ s.acc /\ s.calls[e.k].st = "pending") =>
-                               (t.calls[e.k].st = "done" /\ t.calls[e.k].res = "reject" /\ t.calls[e.k].rkey = s.calls[e.k].key)   \* C16
+                               (t.calls[e.k].st = "done" /\ t.calls[e.k].res \in {"reject", "timeout"} /\ (t.calls[e.k].res = "reject" => t.calls[e.k].rkey = s.calls[e.k].key))   \* C16
 TimeoutP(s, t, e) == (e.a = "Timeout") => \A k \in Slots : IF s.calls[k].st = "pending" THEN t.calls[k].res = "timeout" ELSE t.calls[k] = s.calls[k]
 NotifyOtherP(s, t, e) == (e.a = "Notify" /\ e.kind \in {"insync", "hdrs"}) =>                                           \* C17: every notification, in order
    (t.deliv = Append(s.deliv, [kind |-> e.kind, id |-> (IF e.kind = "insync" THEN 0 ELSE e.k)]) /\ t.nextId = s.nextId)
